@@ -28,6 +28,7 @@ class Run:
         self.wf_id = ""
         self.budget_exhausted = False
         self.bus_log: list[dict] = []
+        self.stale_copies_delivered = 0
 
 
 def _inject(w: World, inj: dict, rng: random.Random, run: Run) -> None:
@@ -88,6 +89,7 @@ def delivery_run(
     keep_world: bool = False,
     resubmit: bool = True,
     pre_hook=None,
+    stale_p: float = 0.0,
 ) -> Run | tuple[Run, World]:
     rng = random.Random(seed)
     w = world or World(events=events, sdata=sdata, trust_negative=trust_negative, dedup_items=dedup_items)
@@ -102,6 +104,7 @@ def delivery_run(
         for inj in injections or []:
             by_step.setdefault(int(inj["at"]), []).append(inj)
         withheld: dict[int, int] = {}
+        stale: dict[int, int | None] = {}  # row id claimed by a stalled worker -> step at which it wakes up
         held: dict[int, int] = {}  # row id -> release step
         hold_seen = 0
         hold_done = False
@@ -149,15 +152,32 @@ def delivery_run(
                 row = cand[-1]
             else:
                 row = rng.choice(cand)
+            if stale_p and row["attempts"] == 0 and row["id"] not in stale and rng.random() < stale_p:
+                # a worker claims the first delivery and stalls; its lock runs out, the queue redelivers
+                if w.claim_only(row["id"]) is not None:
+                    stale[row["id"]] = None
+                    w.lapse(row["id"])
+                    run.steps += 1
+                    continue
             ack = True
             if noack_p and rng.random() < noack_p:
                 if withheld.get(row["id"], 0) < max_redeliver and row["attempts"] < row["max_attempts"] - 4:
                     ack = False
                     withheld[row["id"]] = withheld.get(row["id"], 0) + 1
-            w.deliver(row["id"], ack=ack)
+            rec = w.deliver(row["id"], ack=ack)
             run.steps += 1
+            if row["id"] in stale and rec.get("polled") and rec.get("error") is None:
+                stale[row["id"]] = run.steps + rng.choice([0, 0, 1, 3, 8])
+            for rid in [k for k, at in stale.items() if at is not None and at <= run.steps]:
+                # the stalled worker wakes up after the redelivery was handled and committed
+                del stale[rid]
+                if w.deliver_stale(rid) is not None:
+                    run.stale_copies_delivered += 1
         else:
             run.budget_exhausted = True
+        for rid in [k for k, at in stale.items() if at is not None]:
+            if w.deliver_stale(rid) is not None:
+                run.stale_copies_delivered += 1
         run.queue_left = w.rows()
         run.quiescent = not run.queue_left
         run.dlq = w.dlq_rows()
